@@ -824,7 +824,11 @@ func (c *Cluster) doDeliver(a Action) bool {
 	}
 	m := &pb.Message{}
 	if f.Msg != nil {
+		// the receiver takes the object over (raft may edit a message it was
+		// given, e.g. when it neutralises a configuration change in a MsgProp):
+		// a second delivery of the same message is a retransmission, decoded anew
 		m = f.Msg
+		f.Msg = nil
 		c.stats.fault("msg_by_reference")
 	} else if err := proto.Unmarshal(f.Bytes, m); err != nil {
 		c.chk.toolError(fmt.Sprintf("unmarshal: %v", err))
